@@ -189,7 +189,13 @@ func (a *copyAnalysis) aliasOfRecv(e ast.Expr, seen map[types.Object]bool) (bool
 	return false, ""
 }
 
-func runE5(p *Prog, r *Report) {
+func runE5(p *Prog, r *Report) { runE5In(p, r, false) }
+
+// runE5Module: the same rules for every Copy method of the module (decoder.TargetContext,
+// reference.Target(s), …), not only the schema/lang ones C17 is about.
+func runE5Module(p *Prog, r *Report) { runE5In(p, r, true) }
+
+func runE5In(p *Prog, r *Report, all bool) {
 	count := 0
 	for _, fn := range p.Funcs {
 		if fn.Decl == nil || fn.Decl.Recv == nil || fn.Decl.Name.Name != "Copy" {
@@ -199,7 +205,7 @@ func runE5(p *Prog, r *Report) {
 			continue
 		}
 		sp := shortPkg(fn.Pkg.PkgPath)
-		if sp != "schema" && sp != "lang" {
+		if !all && sp != "schema" && sp != "lang" {
 			continue
 		}
 		count++
@@ -212,6 +218,12 @@ func runE5(p *Prog, r *Report) {
 		"E5(c) a pointer-receiver Copy dereferences its receiver only under a nil guard, or every in-module call site passes a receiver proven non-nil",
 		"E5(c2) every element store into a result slice targets a slice made with the source's length and is indexed by the source's ranging index; every map store targets a made map")
 	r.NotDecided = append(r.NotDecided, "value-level structural equality such as nil-vs-empty containers; immutability of constraints, addresses and cty values (taken from the property statement)")
+}
+
+// e5CoverageExceptions: fields a Copy method leaves out on purpose (function|field -> reason).
+var e5CoverageExceptions = map[string]string{
+	"decoder.(*TargetContext).Copy|ParentRangePtr":    "a child context must not inherit its parent's extent: list/tuple elements fall back to their own expression range, map/object elements set both ranges explicitly (rule E9.element-range-source checks those)",
+	"decoder.(*TargetContext).Copy|ParentDefRangePtr": "see ParentRangePtr",
 }
 
 func analyseCopy(p *Prog, r *Report, fn *Func) {
@@ -624,6 +636,10 @@ func (a *copyAnalysis) checkStructResult(res ast.Expr, rs *ast.ReturnStmt, st *t
 			}
 		}
 		if !covered {
+			if why, ok := e5CoverageExceptions[fn.Name+"|"+name]; ok {
+				r.Add("E5.a-coverage", fn.Name, key, p.Pos(rs), Excepted, why, true)
+				continue
+			}
 			r.Add("E5.a-coverage", fn.Name, key, p.Pos(rs), Violated,
 				fmt.Sprintf("field %s of %s is not copied into the result returned here", name, types.TypeString(baseT, types.RelativeTo(fn.Pkg.Types))), true)
 			continue
@@ -899,8 +915,34 @@ func (a *copyAnalysis) checkContainerResult(res ast.Expr, rs *ast.ReturnStmt, ba
 		if d := fn.SingleDef(v); d != nil {
 			e = ast.Unparen(d)
 		} else {
-			// multiple assignments: accept if each is make/append-to-self
+			// multiple assignments: accept if each is make / literal / append-to-self
 			e = nil
+			okAll := len(fn.Assignments(v)) > 0
+			for _, asn := range fn.Assignments(v) {
+				as, isA := asn.(*ast.AssignStmt)
+				if !isA || len(as.Lhs) != 1 || len(as.Rhs) != 1 {
+					okAll = false
+					break
+				}
+				rhs := ast.Unparen(as.Rhs[0])
+				if c, isC := rhs.(*ast.CallExpr); isC {
+					if isBuiltinCall(info, c, "make") {
+						continue
+					}
+					if isBuiltinCall(info, c, "append") && len(c.Args) >= 1 {
+						if id0, isId := ast.Unparen(c.Args[0]).(*ast.Ident); isId && info.ObjectOf(id0) == v {
+							continue
+						}
+					}
+				}
+				if _, isL := rhs.(*ast.CompositeLit); isL {
+					continue
+				}
+				okAll = false
+			}
+			if okAll {
+				e = &ast.CompositeLit{}
+			}
 		}
 	}
 	fresh := false
